@@ -9,7 +9,7 @@ CONSTANTS MaxLen, Alphabet, DoExport
 
 AllContents == UNION {[1..n -> Alphabet] : n \in 0..MaxLen}
 \* runes: a, LF, é (U+00E9 = C3 A9), U+FFFD; strings: a, a_, aa, é as bytes; words: a, a_, a1
-MCRunes == {97, 10, 233, 65533}
+MCRunes == {97, 10, 233, 65533, 353, 266}    \* 353 = U+0161 and 266 = U+010A end in the bytes of 'a' and LF
 MCStrings == {<<97>>, <<97, 95>>, <<97, 97>>, <<195, 169>>}
 MCWords == {<<97>>, <<97, 95>>, <<97, 49>>}
 Modes == <<"none", "spaces", "nl", "forcenl">>
